@@ -46,7 +46,25 @@ def cfg_str(cfg):
 DEV_SELSEND = "chan:select-send-on-closed-no-panic"
 DEV_FULLSEND = "chan:send-blocked-on-full-closed-no-panic"
 DEV_TRYSEL = "select:nonblocking-polls-one-case-at-a-time-and-parks"
-ALL_DEVS = (DEV_SELSEND, DEV_FULLSEND, DEV_TRYSEL)
+DEV_SELSEL = "select:recv-case-refuses-select-sender"
+ALL_DEVS = (DEV_SELSEND, DEV_FULLSEND, DEV_TRYSEL, DEV_SELSEL)
+
+
+def select_send_first(cases):
+    """selectSendFirst of z_chan.go (channel index = address order)"""
+    snd = [c for (c, s_, _) in cases if s_]
+    rcv = [c for (c, s_, _) in cases if not s_]
+    if not snd:
+        return False
+    if not rcv:
+        return True
+    return min(snd) < min(rcv)
+
+
+def select_accepts(cases, c):
+    """does the receive case on channel c of a BLOCKING select accept a sender that is itself a select?
+    (trySelect: no if the sends are probed first, no if the select also sends on c)"""
+    return (not select_send_first(cases)) and not any(s_ and cc == c for (cc, s_, _) in cases)
 
 
 def go_outcomes(cfg, dev=frozenset(), limit=300000):
@@ -57,6 +75,9 @@ def go_outcomes(cfg, dev=frozenset(), limit=300000):
     `dev`: known deviations of the implementation switched on in the reference (used only to CLASSIFY a failure):
       DEV_SELSEND  - a select send case on a closed channel is never ready (Go: it is chosen and panics);
       DEV_FULLSEND - a plain send on a closed buffered channel whose buffer is full keeps blocking (Go: panics);
+      DEV_SELSEL   - the receive case of a blocking select that probes its sends first, or that also sends on the
+                     same channel, never meets a sender that is itself a select (unless a plain sender is parked
+                     on the channel too);
       DEV_TRYSEL   - a non-blocking select polls its cases one at a time (so `default` can be taken although at
                      every instant some case was ready), and its receive case on an unbuffered channel with a parked
                      sender PARKS as a receiver (any sender may then serve it; it can stay parked for ever).
@@ -222,6 +243,10 @@ def go_outcomes(cfg, dev=frozenset(), limit=300000):
                     if i == j or not (iblock or jblock):
                         continue
                     if (not iblock and not jpk) or (not jblock and not ipk):
+                        continue
+                    if DEV_SELSEL in dev and how != "S" and k is not None and cur[j][0] == "S" and cur[j][1] \
+                            and not select_accepts(cur[j][2], c) \
+                            and not any(h2 == "S" for (_, _, h2, _, _) in senders.get(c, [])):
                         continue
                     s2 = adv(st, i, "S" if how == "S" else sel_res(how, 0, False))
                     s2 = adv(s2, j, ("R%d/1" % v) if k is None else sel_res(k, v, True))
